@@ -295,6 +295,21 @@ def write_conversions(ctx, rule):
     chk = [x for x in walk_no_nested(f) if isinstance(x, ast.If) and 'values.values != data.values' in norm(x.test) and any(isinstance(r, ast.Raise) for r in x.body)]
     ctx.ob(rule, 'writer.write_column:guessed-boolean-and-integer-casts-compared-with-the-objects', len(chk) == 1 and "'ib'" in norm(chk[0].test),
            'bool("no") is True, int("7") is 7: a stray text value after the sampled ones is stored as something it never was', wr.loc(f))
+    # (c) the cast of objects to the primitive integer is for columns whose integers stand for themselves: a time /
+    # date / decimal annotation makes plain integers into values nobody wrote - refused before the cast
+    from ..cfg import CFG as _CFG
+    cfg = _CFG(f)
+    casts = [x for x in iter_child_stmts(f.body) if isinstance(x, ast.Assign) and isinstance(x.value, ast.Call) and (callee(x.value) or '').endswith('.astype')
+             and x.value.args and norm(x.value.args[0]) in ("'int64'", "'int32'") and norm(x.targets[0]) == 'data'
+             and any("dtype.kind == 'O'" in norm(e.test) for e, fld in cfg.enclosing_tests(x) if isinstance(e, ast.If))]
+    guards = [x for x in iter_child_stmts(f.body) if isinstance(x, ast.If) and any(isinstance(r, ast.Raise) for r in x.body)
+              and ('_plain_integers(selement)' in norm(x.test) or 'converted_type' in norm(x.test))]
+    ok = bool(casts) and bool(guards) and all(any(cfg.dominates(cfg.node_of(g_), cfg.node_of(c_)) for g_ in guards) for c_ in casts)
+    pi = wr.funcs.get('_plain_integers')
+    if ok and any('_plain_integers(selement)' in norm(g_.test) for g_ in guards):
+        ok = pi is not None and 'converted_type' in norm(pi) and "('INT', 'UINT')" in norm(pi) and 'logicalType' in norm(pi)
+    ctx.ob(rule, 'writer.write_column:objects-cast-to-integers-only-where-integers-stand-for-themselves', ok,
+           '%d cast(s) of objects to int64 / int32, %d refusing guard(s) on the annotation in front of them' % (len(casts), len(guards)), wr.loc(f))
     g = wr.func('convert')
     ctx.ob(rule, 'writer.convert:guessed-float-cast-compared-with-the-objects',
            _has(g, lambda x: isinstance(x, ast.If) and "out.dtype.kind == 'f'" in norm(x.test) and 'data.values != out' in norm(x.test)), '', wr.loc(g))
